@@ -354,9 +354,15 @@ void h_waitevent(void)
 {
     setup();
     cmv_ntimers = 0; cmv_ninterrupts = 0; cmv_nuresumes = 0; cmv_nev = 0; cmv_left_suspended = 0;
-    foreign_cause();
+#ifndef CMV_ONE_CAUSE
+    foreign_cause();                      /* a cause posted before the call (quick tier: only the one posted during the wait) */
+#endif
     /* the awaited event is the earliest thing in the queue when it executes (cmv_fate == 1) */
+#ifdef CMV_FATE
+    cmv_fate = CMV_FATE;                  /* split by case: each fate of the awaited event is its own group */
+#else
     cmv_fate = nondet_int(); ASSUME(cmv_fate >= 0 && cmv_fate <= 2);
+#endif
     cmv_target = cmb_event_schedule(cmv_ev_action, NULL, NULL, cmv_fate == 1 ? cmb_time() : later(), nondet_i64());
     const int64_t sig = cmb_process_wait_event(cmv_target);
     OBT("C04-O3", count_awaits(P, CMI_PROCESS_AWAITABLE_EVENT) == 0u, "after wait_event returns (whatever the signal) the caller has no EVENT registration left");
@@ -366,7 +372,9 @@ void h_waitevent(void)
     OBT("C04-O3", sig == cmv_p_sig && cmv_p_nresumes == 1, "the return value is the signal of exactly one delivered wake-up");
     OBT("C04-O3", cmb_event_pattern_count(wakeup_event_event, P, CMB_ANY_OBJECT) == 0u, "no event wake-up for the caller is left pending after the call returned");
     CANARY("process wait_event: end reachable");
+#if !defined(CMV_FATE) || CMV_FATE == 1
     if (sig == CMB_PROCESS_SUCCESS) CANARY("process wait_event: SUCCESS reachable");
+#endif
 }
 #endif
 
